@@ -94,15 +94,25 @@ def main(tier, seed):
 
 
 def replay(path):
-    r = json.load(open(path))['replay']
+    """Re-execute the recorded case in-process (no fork isolation): exit 1 iff the recorded signature is
+    reproduced (a crash signature is reproduced by the process dying)."""
+    rec = json.load(open(path))
+    r = rec['replay']
     binary = build()
     os.makedirs(WORK, exist_ok=True)
     e = dict(os.environ)
     e.update({'ASAN_OPTIONS': 'detect_leaks=0:allocator_may_return_null=1', 'UBSAN_OPTIONS': 'print_stacktrace=1'})
     p = subprocess.run([binary, '--work', WORK, '--one', r['case']], capture_output=True, text=True, env=e, errors='replace')
-    print(p.stdout)
     shutil.rmtree(WORK, ignore_errors=True)
+    sigs = [x.get('sig') for x in vcheck.parse_jsonl(p.stdout) if x.get('type') == 'violation']
+    print('case: %s' % r['case'])
+    print('recorded signature: %s' % rec.get('signature'))
+    for s in sigs:
+        print('  reproduced: %s' % s)
     if p.returncode != 0 or '"done"' not in p.stdout:
-        print(p.stderr[-3000:])
+        print('  process died (rc=%s):\n%s' % (p.returncode, p.stderr[-3000:]))
         return 1
-    return 1 if '"violation"' in p.stdout else 0
+    if rec.get('signature') in sigs:
+        return 1
+    print('  recorded signature NOT reproduced')
+    return 0
